@@ -244,11 +244,13 @@ class WindowedWarmUpStager(Stager):
                 # check if iteration counter at end of next loop iteration will be
                 # greater than total number of warm up iterations and if so set number
                 # of iterations in current window to be equal to all remaining warm up
-                # iterations
+                # iterations; likewise if the window would be empty (zero initial
+                # window size or multiplier less than one) as the counter would
+                # otherwise never advance
                 counter_next = counter + int(
                     (1 + self.slow_window_multiplier) * n_window_iter,
                 )
-                if counter_next > n_slow_stage_iter:
+                if counter_next > n_slow_stage_iter or n_window_iter < 1:
                     n_window_iter = n_slow_stage_iter - counter
                 slow_windows.append(n_window_iter)
                 counter += n_window_iter
